@@ -463,7 +463,7 @@ func runC06(x *X) {
 		c06Validate(x, &c06Input{g: g, gen: true}, g, []string{"rows_shared_with_another_table"}, out, calls, 0)
 	})
 	wide := WideGrids()
-	x.Explore("wide", ExploreOpts{ShardDepth: 2, Bound: "4 tables of 10-13 columns x generator on/off x a hostile text in each column position in turn"}, func(c *Chooser) {
+	x.Explore("wide", ExploreOpts{ShardDepth: 2, Bound: "1 table of 56 rows and 4 tables of 10-13 columns x generator on/off x a hostile text in each column position in turn"}, func(c *Chooser) {
 		g0 := wide[c.Choose(len(wide))]
 		gen := c.Bool()
 		g := &Grid{HasHeader: g0.HasHeader, Header: append([]string{}, g0.Header...)}
